@@ -1,11 +1,11 @@
 """C09 - Snapshot and restore do not depend on thread or I/O scheduling."""
-from specs import conc
+from specs import conc, snapshot
 
 LEVEL = 'proof'
-UNITS = conc.units('C09')
+UNITS = conc.units('C09') + [snapshot.producer_unit('C09'), snapshot.run_unit('C09')]
 BOUNDED = [
     {'name': 'C09.sched', 'script': 'bounded/c09_sched.py', 'timeout': 900,
-     'bound': '3 file sets x N in {1,2,3} x {sync backend in executor threads, coroutine backend} x 2 (thorough: 6) seeds of random per-call '
+     'bound': '3 file sets x N in {1,2,3} x {sync backend in executor threads, coroutine backend} x 2 (thorough: 16) seeds of random per-call '
               'latencies (permuted completion orders) + restore locks replaced by GIL-yielding locks; one injected permanent failure per configuration; '
               'oracle: same restored bytes as the files, no spurious error, outstanding transfers <= N, all slots free after quiescence'},
 ]
